@@ -23,8 +23,6 @@ Inductive psite :=
 | TraverseRhsFront      (* operator_traverse_path.go:100  rhs.MatchingNodes.Front().Value    *)
 | SliceNumberFront      (* operator_slice.go:16   result.MatchingNodes.Front().Value         *)
 | CollectObjectContent  (* operator_collect_object.go:39/41  candidateNode.Content[i]        *)
-| SortParseInt          (* operator_sort.go:162/166  panic(err) after parseInt64             *)
-| SortParseFloat        (* operator_sort.go:172/176  panic(err) after strconv.ParseFloat     *)
 | RepeatAlloc           (* operator_multiply.go:161 strings.Repeat: fatal out of memory      *)
 | AliasCycle.           (* unbounded recursion through Alias pointers (stack exhaustion)     *)
 
@@ -237,42 +235,6 @@ Definition rotate_guard {A} (cands : list (list A)) : Prop :=
   end.
 
 (* ------------------------------------------------------------------ *)
-(* operator_sort.go compare, numeric branches                           *)
-(* ------------------------------------------------------------------ *)
-Inductive stag := TInt | TFloat | TOther.
-
-Section SortCompare.
-  (* strconv.ParseFloat(s, 64) returns err == nil *)
-  Variable float_parses : str -> bool.
-
-  Inductive cmp_branch := BrInt (l r : Z) | BrFloat | BrString.
-
-  Definition sort_compare_numeric (lt rt : stag) (lv rv : str) : outcome cmp_branch :=
-    match lt, rt with
-    | TInt, TInt =>
-        match parse_int64 lv with
-        | None => Panic SortParseInt
-        | Some a => match parse_int64 rv with
-                    | None => Panic SortParseInt
-                    | Some b => Ok (BrInt a b)
-                    end
-        end
-    | TOther, _ | _, TOther => Ok BrString
-    | _, _ =>
-        if float_parses lv then
-          if float_parses rv then Ok BrFloat else Panic SortParseFloat
-        else Panic SortParseFloat
-    end.
-
-  Definition sort_guard (lt rt : stag) (lv rv : str) : Prop :=
-    match lt, rt with
-    | TInt, TInt => parse_int64 lv <> None /\ parse_int64 rv <> None
-    | TOther, _ | _, TOther => True
-    | _, _ => float_parses lv = true /\ float_parses rv = true
-    end.
-End SortCompare.
-
-(* ------------------------------------------------------------------ *)
 (* operator_multiply.go repeatString                                    *)
 (* ------------------------------------------------------------------ *)
 Definition repeat_limit : Z := 10000000%Z.
@@ -408,8 +370,6 @@ Definition site_name (s : psite) : str :=
   | TraverseRhsFront => str_of_string "operator_traverse_path.go:100"%string
   | SliceNumberFront => str_of_string "operator_slice.go:16"%string
   | CollectObjectContent => str_of_string "operator_collect_object.go:39"%string
-  | SortParseInt => str_of_string "operator_sort.go:int"%string
-  | SortParseFloat => str_of_string "operator_sort.go:float"%string
   | RepeatAlloc => str_of_string "operator_multiply.go:161"%string
   | AliasCycle => str_of_string "alias-cycle"%string
   end.
@@ -484,7 +444,3 @@ Definition c_parse_int_obs (s : str) : str :=
 (* `"s" * count | length` with mem taken as unbounded for small products *)
 Definition c_repeat (inp : Z * Z) : str :=
   show_outcome dec_of_Z (repeat_string (2 ^ 47)%Z (fst inp) (snd inp)).
-
-(* `[!!int l, !!int r] | sort` class *)
-Definition c_sort_int (inp : str * str) : str :=
-  show_outcome (fun _ : cmp_branch => []) (sort_compare_numeric (fun _ => true) TInt TInt (fst inp) (snd inp)).
